@@ -2,68 +2,293 @@ package interp
 
 import "strings"
 
-// A tiny selector matcher over model nodes for the forms whose outcome does not
-// depend on attribute *values* (tag, *, [attr], tag[attr], comma lists), so that
-// trees carrying symbolic attribute values need not cross the native bridge.
+// A selector matcher over model nodes for the selector subset the code under
+// test uses: comma lists of compound selectors joined by descendant (' ') or
+// child ('>') combinators; a compound is tag|* followed by any number of
+// .class, #id, [attr], [attr=v], [attr="v"], [attr^=v], [attr$=v], [attr*=v],
+// [attr~=v]. Attribute VALUES may be symbolic: a value test is then a decision
+// (fork), so trees carrying symbolic attribute values need not cross the
+// native bridge. Anything else falls back to cascadia on a concrete tree.
+// Validated against cascadia by the bridge self-test (bin/selftest).
 
-type simpleSel struct{ tag, attr string }
-
-func parseSimpleSelectors(sel string) ([]simpleSel, bool) {
-	var out []simpleSel
-	for _, part := range strings.Split(sel, ",") {
-		part = strings.TrimSpace(part)
-		if part == "" || strings.ContainsAny(part, " >+~.#:=^$\"") {
-			return nil, false
-		}
-		s := simpleSel{tag: part}
-		if i := strings.Index(part, "["); i >= 0 {
-			if !strings.HasSuffix(part, "]") {
-				return nil, false
-			}
-			s.tag, s.attr = part[:i], part[i+1:len(part)-1]
-		}
-		if s.tag == "*" {
-			s.tag = ""
-		}
-		out = append(out, s)
-	}
-	return out, true
+type attrTest struct {
+	key string
+	op  byte // 0 exists, '=', '^', '$', '*', '~'
+	val string
 }
 
-func selMatches(n structure, sels []simpleSel) bool {
-	if asInt64(n[5]) != 3 { // html.ElementNode
-		return false
+type compound struct {
+	tag   string // "" = any
+	attrs []attrTest
+	comb  byte // combinator to the PREVIOUS compound: 0 (first), ' ' or '>'
+}
+
+type complexSel []compound
+
+func parseSelectors(sel string) ([]complexSel, bool) {
+	var out []complexSel
+	for _, part := range splitTop(sel, ',') {
+		part = strings.TrimSpace(part)
+		if part == "" {
+			return nil, false
+		}
+		cs, ok := parseComplex(part)
+		if !ok {
+			return nil, false
+		}
+		out = append(out, cs)
 	}
-	for _, s := range sels {
-		if s.tag != "" && n[7] != value(s.tag) {
-			continue
+	return out, len(out) > 0
+}
+
+func splitTop(s string, sep byte) []string {
+	var out []string
+	depth, last := 0, 0
+	inq := byte(0)
+	for i := 0; i < len(s); i++ {
+		c := s[i]
+		switch {
+		case inq != 0:
+			if c == inq {
+				inq = 0
+			}
+		case c == '"' || c == '\'':
+			inq = c
+		case c == '[':
+			depth++
+		case c == ']':
+			depth--
+		case c == sep && depth == 0:
+			out = append(out, s[last:i])
+			last = i + 1
 		}
-		if s.attr != "" {
-			found := false
-			for _, a := range n[9].([]value) {
-				if a.(structure)[1] == value(s.attr) {
-					found = true
+	}
+	return append(out, s[last:])
+}
+
+func isIdent(c byte) bool {
+	return c == '-' || c == '_' || c >= '0' && c <= '9' || c >= 'a' && c <= 'z' || c >= 'A' && c <= 'Z'
+}
+
+func parseComplex(s string) (complexSel, bool) {
+	var cs complexSel
+	i := 0
+	comb := byte(0)
+	for i < len(s) {
+		// combinator
+		sawSpace := false
+		for i < len(s) && (s[i] == ' ' || s[i] == '\t') {
+			sawSpace = true
+			i++
+		}
+		if i < len(s) && s[i] == '>' {
+			comb = '>'
+			i++
+			for i < len(s) && s[i] == ' ' {
+				i++
+			}
+		} else if sawSpace && len(cs) > 0 {
+			comb = ' '
+		}
+		if i >= len(s) {
+			break
+		}
+		c := compound{comb: comb}
+		if len(cs) == 0 {
+			c.comb = 0
+		}
+		start := i
+		if s[i] == '*' {
+			i++
+		} else {
+			for i < len(s) && isIdent(s[i]) {
+				i++
+			}
+			c.tag = strings.ToLower(s[start:i])
+		}
+		for i < len(s) && (s[i] == '.' || s[i] == '#' || s[i] == '[') {
+			switch s[i] {
+			case '.', '#':
+				k := s[i]
+				i++
+				st := i
+				for i < len(s) && isIdent(s[i]) {
+					i++
 				}
-			}
-			if !found {
-				continue
+				if st == i {
+					return nil, false
+				}
+				if k == '.' {
+					c.attrs = append(c.attrs, attrTest{"class", '~', s[st:i]})
+				} else {
+					c.attrs = append(c.attrs, attrTest{"id", '=', s[st:i]})
+				}
+			case '[':
+				j := strings.IndexByte(s[i:], ']')
+				if j < 0 {
+					return nil, false
+				}
+				body := s[i+1 : i+j]
+				i += j + 1
+				at := attrTest{}
+				k := 0
+				for k < len(body) && isIdent(body[k]) {
+					k++
+				}
+				at.key = strings.ToLower(body[:k])
+				if at.key == "" {
+					return nil, false
+				}
+				rest := body[k:]
+				if rest != "" {
+					switch {
+					case rest[0] == '=':
+						at.op, rest = '=', rest[1:]
+					case len(rest) > 1 && rest[1] == '=' && strings.IndexByte("^$*~", rest[0]) >= 0:
+						at.op, rest = rest[0], rest[2:]
+					default:
+						return nil, false
+					}
+					if len(rest) >= 2 && (rest[0] == '"' || rest[0] == '\'') && rest[len(rest)-1] == rest[0] {
+						rest = rest[1 : len(rest)-1]
+					}
+					if strings.ContainsAny(rest, "\"'\\") {
+						return nil, false
+					}
+					at.val = rest
+				}
+				c.attrs = append(c.attrs, at)
 			}
 		}
+		if i == start {
+			return nil, false
+		}
+		if i < len(s) && s[i] != ' ' && s[i] != '>' && s[i] != '\t' {
+			return nil, false // pseudo-classes, sibling combinators, ...
+		}
+		cs = append(cs, c)
+		comb = 0
+	}
+	return cs, len(cs) > 0
+}
+
+func attrMatches(at attrTest, v value) bool {
+	if at.op == 0 {
 		return true
+	}
+	bs := bytesOf(v)
+	want := bytesOf(at.val)
+	switch at.op {
+	case '=':
+		return decideT(strEq(v, at.val))
+	case '^':
+		return len(want) > 0 && decideT(eqAt(bs, 0, want))
+	case '$':
+		return len(want) > 0 && decideT(eqAt(bs, len(bs)-len(want), want))
+	case '*':
+		if len(want) == 0 {
+			return false
+		}
+		var alts []string
+		for off := 0; off+len(want) <= len(bs); off++ {
+			alts = append(alts, eqAt(bs, off, want))
+		}
+		return decideT(or(alts...))
+	case '~':
+		if len(want) == 0 {
+			return false
+		}
+		// whitespace-separated token equal to want
+		var alts []string
+		for off := 0; off+len(want) <= len(bs); off++ {
+			c := eqAt(bs, off, want)
+			if off > 0 {
+				c = and(c, isSpaceT(bs[off-1]))
+			}
+			if off+len(want) < len(bs) {
+				c = and(c, isSpaceT(bs[off+len(want)]))
+			}
+			alts = append(alts, c)
+		}
+		return decideT(or(alts...))
 	}
 	return false
 }
 
-func selQueryAll(root *value, sels []simpleSel, first bool) []value {
+func compoundMatches(n structure, c compound) bool {
+	if asInt64(n[5]) != 3 { // html.ElementNode
+		return false
+	}
+	if c.tag != "" {
+		d, ok := n[7].(string)
+		if !ok {
+			panic(unsupported{"symbolic tag name in selector matching"})
+		}
+		if d != c.tag {
+			return false
+		}
+	}
+	for _, at := range c.attrs {
+		found := false
+		for _, a := range n[9].([]value) {
+			as := a.(structure)
+			k, ok := as[1].(string)
+			if !ok {
+				panic(unsupported{"symbolic attribute key in selector matching"})
+			}
+			if k != at.key {
+				continue
+			}
+			// cascadia: any attribute of that name whose value passes
+			if attrMatches(at, as[2]) {
+				found = true
+				break
+			}
+		}
+		if !found {
+			return false
+		}
+	}
+	return true
+}
+
+func parentOf(p *value) *value { return np((*p).(structure)[0]) }
+
+// selMatchAt: does the complex selector cs (up to index k) match node p?
+func selMatchAt(p *value, cs complexSel, k int, scope *value) bool {
+	if !compoundMatches((*p).(structure), cs[k]) {
+		return false
+	}
+	if k == 0 {
+		return true
+	}
+	switch cs[k].comb {
+	case '>':
+		par := parentOf(p)
+		return par != nil && selMatchAt(par, cs, k-1, scope)
+	default:
+		for a := parentOf(p); a != nil; a = parentOf(a) {
+			if selMatchAt(a, cs, k-1, scope) {
+				return true
+			}
+		}
+	}
+	return false
+}
+
+func selQueryAll(root *value, sels []complexSel, first bool) []value {
 	var out []value
 	var walk func(p *value) bool
 	walk = func(p *value) bool {
-		for c := (*p).(structure)[1].(*value); c != nil; c = (*c).(structure)[4].(*value) {
-			if selMatches((*c).(structure), sels) {
-				out = append(out, c)
-				if first {
-					return true
+		for c := np((*p).(structure)[1]); c != nil; c = np((*c).(structure)[4]) {
+			for _, cs := range sels {
+				if selMatchAt(c, cs, len(cs)-1, root) {
+					out = append(out, c)
+					break
 				}
+			}
+			if first && len(out) > 0 {
+				return true
 			}
 			if walk(c) {
 				return true
@@ -79,7 +304,10 @@ func init() {
 	const dom = "github.com/go-shiori/dom"
 	natQ, natQA := intrinsics[dom+".QuerySelector"], intrinsics[dom+".QuerySelectorAll"]
 	intrinsics[dom+".QuerySelector"] = func(fr *frame, a []value) value {
-		if sels, ok := parseSimpleSelectors(conc(a[1])); ok {
+		if np(a[0]) == nil {
+			panic("runtime error: invalid memory address or nil pointer dereference")
+		}
+		if sels, ok := parseSelectors(conc(a[1])); ok {
 			r := selQueryAll(a[0].(*value), sels, true)
 			if len(r) == 0 {
 				return (*value)(nil)
@@ -89,7 +317,10 @@ func init() {
 		return natQ(fr, a)
 	}
 	intrinsics[dom+".QuerySelectorAll"] = func(fr *frame, a []value) value {
-		if sels, ok := parseSimpleSelectors(conc(a[1])); ok {
+		if np(a[0]) == nil {
+			panic("runtime error: invalid memory address or nil pointer dereference")
+		}
+		if sels, ok := parseSelectors(conc(a[1])); ok {
 			return selQueryAll(a[0].(*value), sels, false)
 		}
 		return natQA(fr, a)
